@@ -128,7 +128,17 @@ func cmdConcurrent(args []string) int {
 			} else {
 				for k := range got {
 					if got[k] != alone[i][k] {
-						report(fmt.Sprintf("schedule %s event %d differs between the concurrent run and the run alone:\n  alone:      %.300s\n  concurrent: %.300s", scheds[i].ID, k+1, alone[i][k], got[k]))
+						// show the part that differs
+						d := 0
+						for d < len(got[k]) && d < len(alone[i][k]) && got[k][d] == alone[i][k][d] {
+							d++
+						}
+						if d > 60 {
+							d -= 60
+						} else {
+							d = 0
+						}
+						report(fmt.Sprintf("schedule %s event %d differs between the concurrent run and the run alone: alone: ...%.200s | concurrent: ...%.200s", scheds[i].ID, k+1, alone[i][k][d:], got[k][d:]))
 						break
 					}
 				}
